@@ -143,6 +143,6 @@ claim("C20", "generated thread plans (2..16 threads x 20..200 calls, barrier/yie
       "Exploration of schedules by repeated perturbed runs: every concurrent result must equal the sequential result of the same call, "
       "the sequential pass afterwards must be unchanged (no poisoned lock), all threads must join before the watchdog; the thorough "
       "tier additionally runs the workload under ThreadSanitizer, where a reported data race is a violation even when values are right.",
-      "This family does not own the scheduler: interleavings are sampled, not enumerated, and first-use races of lazily initialised "
-      "globals are not exercised (the driver evaluates every call sequentially first). If the sanitizer build cannot be produced the "
+      "This family does not own the scheduler: interleavings are sampled, not enumerated. First-use races of lazily initialised "
+      "globals are exercised by the `cold` part (fresh process, sequential pass after the threads), a few dozen starts per quick run. If the sanitizer build cannot be produced the "
       "evidence says so and no violation is raised for tooling.")
